@@ -1008,6 +1008,11 @@ def icase_safe(ast):
         if l[0] == 'rng':
             return rng_ok(l[1], l[2])
         if l[0] == 'cls':
+            if l[1] and l[3] is not None:
+                # negated group with subtraction: the complement contains every case troublemaker (U+017F folds to s/S ...), and
+                # the engine closes the set under case AFTER negation and subtraction (known quirk icase-subtraction-closure);
+                # verdicts are attributed to that quirk, reported match positions cannot be -- not generated under 'i'
+                return False
             return all(leaf_ok(i) for i in l[2]) and (l[3] is None or leaf_ok(l[3]))
         return l[0] in ('lit', 'dot', 'blk')
     return all(leaf_ok(l) for l in leaves(ast))
@@ -1362,7 +1367,7 @@ def strings_for(ast, env, rnd, big=False, nlong=24):
         return x[0] == 'rep' and (x[3] is None or x[3] >= 3)
     risky = any(big(x) and has_choice(x[1]) for x in walk(ast))
     nested = any(big(x) and any(big(y) for y in walk(x[1])) for x in walk(ast))      # repetition inside repetition
-    cap = 7 if nested else (12 if risky else 60)
+    cap = 7 if nested else (8 if risky else 60)       # (12 for risky until `(.|.|.)+c+?` on 15 characters took minutes: 3^n paths)
     for i in range(nlong):
         m = i % 3
         s = sample_member(ast, env, rnd, maxrep=1 if nested else (2 if risky else 3))
@@ -1381,7 +1386,8 @@ def strings_for(ast, env, rnd, big=False, nlong=24):
         add(s)
         if not env.xsd and i % 4 == 0:
             # search semantics: embed in context
-            add([rnd.choice(wide)] * rnd.randint(1, 3) + list(s) + [rnd.choice(wide)] * rnd.randint(0, 2))
+            emb = [rnd.choice(wide)] * rnd.randint(1, 3) + list(s) + [rnd.choice(wide)] * rnd.randint(0, 2)
+            add(emb if not (risky or nested) else emb[:cap + 2])
     return alpha, out
 
 
